@@ -201,7 +201,9 @@ fn prec_strategy(max_len: usize) -> BoxedStrategy<PrecCase> {
         .prop_map(|(spec, neg, scale, where_, pos, off, mode, zero)| {
             let digits = if zero == 0 { "0".to_string() } else { gen::digits_of(&spec) };
             let nd = digits.len() as u64;
-            let cut = gen::tail_cut(&spec);
+            // (a zero has one digit whatever the drawn spec says: its precision stays small, so that the padded scale of
+            // a zero placed next to i64::MAX remains representable)
+            let cut = if zero == 0 { 1 } else { gen::tail_cut(&spec) };
             let p = match where_ {
                 0..=3 => cut,                         // at the tail family's cut
                 4 => nd,                              // equal to the digit count
